@@ -169,9 +169,17 @@ pub fn build(sc: &Value, env: &Arc<Env>) -> Graph {
         };
         let node = match kind {
             "from_iter" => {
-                let items = n.get("items").and_then(|x| x.as_array()).map(|a| {
-                    a.iter().map(|x| x.as_i64().unwrap()).collect::<Vec<_>>()
-                });
+                let unbounded = n.get("unbounded").and_then(|x| x.as_bool()).unwrap_or(false);
+                let items = if unbounded {
+                    None
+                } else {
+                    Some(
+                        n.get("items")
+                            .and_then(|x| x.as_array())
+                            .map(|a| a.iter().map(|x| x.as_i64().unwrap()).collect::<Vec<_>>())
+                            .unwrap_or_default(),
+                    )
+                };
                 let it = ProbeIterable {
                     env: Arc::clone(env),
                     id,
